@@ -47,7 +47,11 @@ func nativeReplay(pkg string, files []string, cases []*replayCase) ([]*replayRes
 	if err != nil {
 		return nil, "", err
 	}
-	defer os.RemoveAll(tmp)
+	if os.Getenv("VERIF_KEEP") == "" {
+		defer os.RemoveAll(tmp)
+	} else {
+		fmt.Println("replay dir kept:", tmp)
+	}
 	ov := map[string]string{}
 	rt, _ := filepath.Glob(filepath.Join(verifDir, "harness", "zzverif", "*.go"))
 	for _, f := range rt {
@@ -318,7 +322,7 @@ func report(id, tier string, ps *PropSpec, results []*RunResult, loadT, wall tim
 			"explanation":                   "states = completed symbolic paths (each covers every value of its symbolic inputs), transitions = decisions+forks; obligations are solver queries `path condition ∧ ¬property` (unsat = discharged)",
 			"solver_queries":                solverQ,
 			"solver_time_s":                 solverT.Seconds(),
-			"solvers":                       []string{"z3 4.8.12 (z3 -in, one process per worker)"},
+			"solvers":                       solversUsed(results),
 			"functions_encoded":             allFuncs,
 			"functions_encoded_count":       len(allFuncs),
 			"stubs_hit":                     allStubs,
@@ -356,4 +360,21 @@ func tail(s string, n int) string {
 		return s[len(s)-n:]
 	}
 	return s
+}
+
+func solversUsed(results []*RunResult) []string {
+	m := map[string]bool{}
+	for _, r := range results {
+		if r.Cfg.Solver == "cvc5" {
+			m["cvc5 1.0.3 (cvc5 --incremental, one process per worker; used where floating point dominates)"] = true
+		} else {
+			m["z3 4.8.12 (z3 -in, one process per worker)"] = true
+		}
+	}
+	var out []string
+	for k := range m {
+		out = append(out, k)
+	}
+	sort.Strings(out)
+	return out
 }
